@@ -70,7 +70,7 @@ def make_optimizer(cname, task):
 class Funnel:
     """one execution of the real _init_agent on a symbolic candidate with an uninterpreted objective"""
     def __init__(self, names, cname="base", minmax=MIN, n_obj=1, kind="real", weights="sym", symbolic_bounds=False,
-                 extra_coords=0):
+                 extra_coords=0, mutate=False):
         self.vars = build_vars(names, symbolic_bounds)
         self.decls = leaf_decls(self.vars)
         self.minmax, self.n_obj = minmax, n_obj
@@ -80,7 +80,7 @@ class Funnel:
         else:
             self.w = [sym.real(f"w{j}", lo=0.0) for j in range(n_obj)]
         ret = self.F[0] if self.w is None else list(self.F)          # list1: a one-objective list with one weight
-        self.task = make_task(self.vars, lambda x, i: ret, minmax=minmax, weights=self.w)
+        self.task = make_task(self.vars, lambda x, i: ret, minmax=minmax, weights=self.w, mutate=mutate)
         self.opt = make_optimizer(cname, self.task)
         self.x = sym_candidate(self.decls, kind=kind) + [sym.real(f"extra{i}") for i in range(extra_coords)]
         self.log = self.task.data["log"]
